@@ -304,7 +304,10 @@ func (c *cliCase) failOutput(mode string, n int) bool {
 		switch {
 		case t <= n:
 			downgrade(false)
-		case n == 0 || t > n+pipeBuf+64:
+		case t > n+pipeBuf+64:
+			// (more than the pipe can buffer beyond what the reader takes: the writer must see the
+			//  closed read end. With less it may not: a write can land in the pipe buffer while the
+			//  read end is still transiently open in a sibling process between fork and exec.)
 			downgrade(true)
 		default:
 			return false
